@@ -18,7 +18,7 @@ mon = sys.monitoring
 TOOL = 3
 _ready = False
 _handler = None
-_busy = False
+_tl = __import__("threading").local()
 
 POSIX_NAMES = ("stat", "lstat", "open", "replace", "rename", "unlink", "remove", "rmdir", "mkdir", "listdir",
                "scandir", "utime", "chmod", "access", "truncate", "link", "symlink")
@@ -29,9 +29,12 @@ MUTATING_IO = {"write", "close", "flush", "truncate", "writelines"}
 
 
 def _cb(code, offset, callable_, arg0):
-    global _busy
     h = _handler
-    if h is None or _busy:
+    if h is None or getattr(_tl, "busy", False):
+        return
+    if code.co_filename.startswith("<frozen importlib"):
+        # the import system works under real (per-module) locks: its file-system calls are not
+        # scheduling / crash points of their own (they belong to the interpreter, not to joblib)
         return
     name = None
     target = None
@@ -55,11 +58,11 @@ def _cb(code, offset, callable_, arg0):
                 target = arg0
     if name is None:
         return
-    _busy = True
+    _tl.busy = True
     try:
         h(name, target)
     finally:
-        _busy = False
+        _tl.busy = False
 
 
 def start(handler):
